@@ -132,7 +132,10 @@ pub broadcast proof fn axiom_refslice_eq_array<const N: usize>(a: &[u8], b: &[u8
 pub broadcast proof fn axiom_slice_eq_slice(a: &[u8], b: &[u8])
     ensures #[trigger] a.eq_spec(b) == (a@ == b@)
 { admit(); }
-pub broadcast group slice_eq { axiom_slice_eq_array, axiom_refslice_eq_array, axiom_slice_eq_slice }
+pub broadcast proof fn axiom_string_eq(a: &String, b: &String)
+    ensures #[trigger] a.eq_spec(b) == (a@ == b@)
+{ admit(); }
+pub broadcast group slice_eq { axiom_slice_eq_array, axiom_refslice_eq_array, axiom_slice_eq_slice, axiom_string_eq }
 }
 pub use eq_axioms::slice_eq;
 
@@ -163,3 +166,20 @@ pub fn v_str_as_bytes(s: &str) -> (r: &[u8])
 #[verifier::external_body]
 pub fn v_to_string<T>(t: &T) -> (r: String)
 { unimplemented!() }
+
+// --- str / String helpers (rule R17): documented std behaviour, assumed
+#[verifier::external_body]
+pub fn v_string_from(s: &str) -> (r: String)
+    ensures r@ == s@
+{ s.into() }
+#[verifier::external_body]
+pub fn v_str_len(s: &str) -> (r: usize)
+    ensures r == str_bytes(s@).len()
+{ s.len() }
+pub broadcast proof fn axiom_str_bytes_empty(s: Seq<char>)
+    ensures (#[trigger] str_bytes(s).len() == 0) <==> s.len() == 0
+{ admit(); }
+#[verifier::external_body]
+pub fn v_string_eq(a: &String, b: &String) -> (r: bool)
+    ensures r == (a@ == b@)
+{ a == b }
